@@ -13,6 +13,7 @@ THEOREMS = [
     ("EG.props.C19", "C19_checker_complete"),
     ("EG.props.C19", "C19_pulled_meaning"),
     ("EG.props.C19", "C19_checker_sound"),
+    ("EG.props.C19", "C19_fast_checker_equiv"),
     ("EG.props.C19", "C19_all_endpoints_survive_minority_stop"),
     ("EG.props.C19", "C19_refuted_single_endpoint"),
 ]
@@ -35,14 +36,21 @@ RULE = ("cases: one write history (put/delete/txn/delete-prefix; bursts, same-va
         "came back after being replaced (+32), 3-member same-host cluster with the server of one member stopped (+64); "
         "size dimension: values up to ~200 KiB, prefix totals crossing a small non-default cluster.max-call-send-msg-size "
         "(64 KiB..2 MiB) and the 2/4 MiB client defaults; "
+        "key-count dimension: prefixes of 513 / 1024 / >1024 (1025, 1100, 1537, 2049) keys written by index ranges, then "
+        "changes of the last, a middle and a first key; "
         "group endpoints: etcd client endpoint list built by getClient vs members of the initial cluster (1-7 members, same "
         "host / distinct hosts) and its per-call send/receive limits vs the option; distinct = distinct (group, input) hashes among non-trivial cases")
 TRUSTED_BASE = [
     "model coq/model/Syncer.v is hand-written; tied to pkg/cluster/syncer.go + op.go by the per-run correspondence (sampled)",
-    "the store-state sequence is what the harness reads back from the embedded etcd (GetRaw/GetRawPrefix, linearizable reads) "
+    "the store-state sequence is what the harness reads back from the embedded etcd (its own single linearizable range request, "
+    "independent of op.go; cluster.GetRaw/GetRawPrefix are cross-checked against it) "
     "after each of its own writes; the harness is the only writer of the watched keys",
     "scheduling (ticker, watch delivery, pull timing) is fed back to the model as a schedule reconstructed from the observed "
     "messages; etcd server/client, gRPC, Go runtime are not modelled",
+    "evaluation uses check_trace_fast (linear comparison when two contents list the same keys in the same order), proved equal "
+    "to check_trace for contents with unique keys (C19_fast_checker_equiv); contents come from Go maps / one range response; "
+    "for contents of more than 64 entries the correspondence decides the model's outputs by that checker (C19_checker_complete) "
+    "instead of running the quadratic model",
     "fault injection (muted watch stream, fabricated 'compacted' cancel response) is a gRPC stream interceptor of the harness' "
     "own watch client; a genuine etcd-side cancellation is not forced",
 ]
@@ -73,7 +81,17 @@ def coq_header(kf_open):
 
 
 def _content(c):
-    return L([T(S(k), S(v)) for k, v in (c or [])])
+    c = c or []
+    if not any(k.startswith("#range:") for k, _ in c):
+        return L([T(S(k), S(v)) for k, v in c])
+    items = []
+    for k, v in c:
+        if k.startswith("#range:"):
+            _, frm, n, stem = k.split(":", 3)
+            items.append(C("CR", S(stem), Nat(frm), Nat(n), S(v)))
+        else:
+            items.append(C("CP", S(k), S(v)))
+    return "(expand %s)" % L(items)
 
 
 def _val(v, size):
@@ -87,6 +105,8 @@ def _op(o):
     k = o["k"]
     if k == "put":
         return C("OPut", S(o.get("key", "")), S(_val(o.get("val", ""), o.get("size", 0))))
+    if k == "fill":
+        return C("OFill", S(o.get("key", "")), Nat(o.get("from", 0)), Nat(o.get("n", 0)), S(o.get("val", "")))
     if k == "del":
         return C("ODel", S(o.get("key", "")))
     if k == "delprefix":
@@ -135,12 +155,12 @@ def _encode_sync(i, o):
         c_obs=L([Rec(o_states=L([_content(x) for x in (so.get("states") or [])]),
                      o_msgs=L([_content(x) for x in (so.get("msgs") or [])])) for so in (o.get("subs") or [])]),
         c_faults=B(any(x["k"] in _FAULTS for x in ops)),
-        c_bad=B(bool(o.get("bad"))))
+        c_bad=B(bool(o.get("bad"))), c_api_bad=B(o.get("api_read_mismatch", 0) > 0))
 
 
 def distribution(cases):
     d = dict(groups={}, ops_hist={}, op_kinds={}, sub_kinds={}, consumers={}, subscribe_pos=dict(start=0, middle=0, end=0),
-             messages=0, store_states=0, large_value_cases=0, max_watched_bytes=0, send_limit_options={}, dropped_watch_responses=0, injected_cancels=0, harness_failures=0)
+             messages=0, store_states=0, large_value_cases=0, max_prefix_keys=0, api_read_mismatches=0, max_watched_bytes=0, send_limit_options={}, dropped_watch_responses=0, injected_cancels=0, harness_failures=0)
     for c in cases:
         i, o = c["in"], c["obs"]
         d["groups"][c["grp"]] = d["groups"].get(c["grp"], 0) + 1
@@ -151,6 +171,10 @@ def distribution(cases):
         d["ops_hist"][b] = d["ops_hist"].get(b, 0) + 1
         for x in ops:
             d["op_kinds"][x["k"]] = d["op_kinds"].get(x["k"], 0) + 1
+        d["api_read_mismatches"] += o.get("api_read_mismatch", 0)
+        for x in ops:
+            if x["k"] == "fill":
+                d["max_prefix_keys"] = max(d["max_prefix_keys"], x.get("from", 0) + x.get("n", 0))
         if any(x.get("size", 0) > 256 for x in ops):
             d["large_value_cases"] += 1
             lim = str(i.get("send_limit", 0))
